@@ -45,6 +45,14 @@ M = [
  ("rope_slice_last_piece_dropped", "src/rope.rs", "        (start_chunk_index..end_chunk_index + 1).try_for_each(|i| {", "        (start_chunk_index..end_chunk_index).try_for_each(|i| {", {"C16": "V"}),
  ("rope_unchecked_off_by_one", "src/rope.rs", "            let chunk = unsafe { chunk.get_unchecked(..end) };", "            let chunk = unsafe { chunk.get_unchecked(..end + 1) };", {"C19": "V"}),
  ("rope_end_check_removed", "src/rope.rs", "      (None, Some(end)) => {\n        if end > self.len() {\n          return Err(Error::Rope(\"end out of bounds\"));\n        }\n      }", "      (None, Some(_end)) => {}", {"C17": "V", "C19": "V"}),
+ # ---- breaking: Rope observers (unit rope_obs) ----
+ ("ropeobs_ends_with_last_piece", "src/rope.rs", "          if !chunk.is_empty() {\n            return chunk.ends_with(value);\n          }", "          return chunk.ends_with(value);", {"C16": "V"}),
+ ("ropeobs_starts_with_equality", "src/rope.rs", "          // every piece of `value` matched: `value` is a prefix, whatever remains\n          true", "          remaining.is_empty()", {"C16": "V"}),
+ ("ropeobs_empty_piece_not_skipped", "src/rope.rs", "                  if remaining_other.is_empty() {\n                    // an empty piece matches trivially\n                    continue;\n                  }\n", "", {"C16": "V"}),
+ ("ropeobs_is_empty_first_piece", "src/rope.rs", "      Repr::Full(data) => data.iter().all(|(s, _)| s.is_empty()),", "      Repr::Full(data) => data.first().map_or(true, |(s, _)| s.is_empty()),", {"C16": "V"}),
+ ("ropeobs_full_light_early_true", "src/rope.rs", "              if chunk.starts_with(remaining_other) {\n                return true;\n              }", "              if chunk.starts_with(remaining_other) || remaining_other.len() < chunk.len() {\n                return true;\n              }", {"C16": "V"}),
+ ("ropeobs_eq_str_skips_last", "src/rope.rs", "          if chunk != &other[idx..(idx + chunk.len())] {\n            return false;\n          }\n          idx += chunk.len();\n        }\n      }\n    }\n\n    true\n  }\n}\n\nimpl PartialEq<&str>", "          if idx > 0 && chunk != &other[idx..(idx + chunk.len())] {\n            return false;\n          }\n          idx += chunk.len();\n        }\n      }\n    }\n\n    true\n  }\n}\n\nimpl PartialEq<&str>", {"C16": "V"}),
+ ("ropeobs_char_indices_bound", "src/rope.rs", "        // only empty chunks were left\n        if *chunk_index >= chunks.len() {\n          return None;\n        }\n", "", {"C16": "P2"}),  # CharIndices::next is not under contract: nothing fails, no search runs
  ("benign_rope_len_commute", "src/rope.rs", "        .map_or(0, |(chunk, start_pos)| start_pos + chunk.len()),\n    }\n  }", "        .map_or(0, |(chunk, start_pos)| chunk.len() + start_pos),\n    }\n  }", {"C16": "P2"}),
  # ---- benign ----
  ("benign_rename_local", "src/encoder.rs", "let mut digit = num & 0b11111;\n    num >>= 5;\n    if num > 0 {\n      digit |= 1 << 5;\n    }\n    out.push(B64_CHARS[digit as usize]);",
